@@ -1500,7 +1500,8 @@ def unwrap(t: tp.Any) -> tp.Any:
             if issubclass(type(tv), str):
                 return refs.forwardref(tv, module=t.__module__)
             lt = t
-            t = tv
+            # `type Nothing = None`: an alias keeps the `None` typing otherwise normalizes.
+            t = tv if tv is not None else type(None)
             continue
 
         if hasattr(t, "__supertype__"):
